@@ -3,7 +3,7 @@ import Model.Align
 /-!
 Line-protocol driver for C10.  Sections of a line are separated by " | ", tokens by blanks.
 
-  imap W cfg | files | reader | fb | perm
+  imap W cfg [U<args>;<kwargs>] | files | reader | fb | perm
       -> events | items | failed | maxq | log | warn | writes
   map  W cfg | files | reader | fb | perm
       -> events | items | failed | maxrun | log | warn | writes
@@ -41,15 +41,16 @@ def firstFile : FileArg → Option Nat
   | .bundle fs => fs.head?
 
 /-- the task a call belongs to, as far as the function can tell from its arguments
-(contents written by the harness are 1000 + file id) -/
+(contents written by the harness are 1000 + file id + 100000 · read_args tag) -/
 def keyOf : Args → Option Nat
   | .infoOnly f => firstFile f
   | .both _ f => firstFile f
-  | .contentOnly (some (.one c)) => some (c - 1000).toNat
-  | .contentOnly (some (.many (c :: _))) => some (c - 1000).toNat
+  | .contentOnly (some (.one c)) => some ((c - 1000) % 100000).toNat
+  | .contentOnly (some (.many (c :: _))) => some ((c - 1000) % 100000).toNat
   | .contentOnly _ => none
 
-def mkFunc (fb : List Char) (a : Args) : Except Err (Option String) :=
+def mkFunc (fb : List Char) (uargs : List String) (kwargs : List (String × String)) (a : Args) :
+    Except Err (Option String) :=
   let beh := if fb = ['P'] then 'p' else match keyOf a with
     | some k => fb.getD k 'v'
     | none => 'v'
@@ -59,7 +60,8 @@ def mkFunc (fb : List Char) (a : Args) : Except Err (Option String) :=
   | 'p' => match passer a with
     | .ok c => .ok (c.map (fun c => renderContent (some c)))
     | .error e => .error e
-  | _ => .ok (some (renderArgs a))
+  | _ => .ok (some (String.join (uargs.map ("U" ++ ·)) ++ renderArgs a ++
+      String.join (kwargs.map (fun kv => "K" ++ kv.1 ++ "=" ++ kv.2))))
 
 def renderErr : Err → String
   | .readError f => s!"read:{f}"
@@ -104,12 +106,27 @@ structure Case where
   rd : Reader
   fb : List Char
   perm : List Nat
+  uargs : List String := []
+  kwargs : List (String × String) := []
 
 def parseCase (secs : List String) : Option Case := do
   match secs with
   | [h, f, r, fb, p] =>
     match toks h with
-    | [_, w, c] =>
+    | _ :: w :: c :: ua =>
+      -- optional 4th token  U<arg>,<arg>;<key>=<val>,…   (user args= / kwargs= of map)
+      let (uargs, kwargs) : List String × List (String × String) :=
+        match ua with
+        | [t] =>
+          match (t.drop 1).toString.splitOn ";" with
+          | [a, k] =>
+            ((a.splitOn ",").filter (· ≠ ""),
+             ((k.splitOn ",").filter (· ≠ "")).map (fun kv =>
+               match kv.splitOn "=" with
+               | [x, y] => (x, y)
+               | _ => (kv, "")))
+          | _ => ([], [])
+        | _ => ([], [])
       let workers ← w.toNat?
       let cfg ← parseCfg c
       let files ← (toks f).mapM parseFile
@@ -120,7 +137,7 @@ def parseCase (secs : List String) : Option Case := do
         | some (.error _) => .error (.readError i)
         | some x => x
         | none => .error (.readError i)
-      some { workers, cfg, files, rd, fb := fb.trimAscii.toString.toList, perm }
+      some { workers, cfg, files, rd, fb := fb.trimAscii.toString.toList, perm, uargs, kwargs }
     | _ => none
   | _ => none
 
@@ -159,7 +176,7 @@ def writesOf (items : List (TaskOut String)) : String :=
   spaced (items.filterMap (fun t => t.wrote))
 
 def doImap (c : Case) : String :=
-  let tasks := taskList c.cfg c.rd (mkFunc c.fb) c.files
+  let tasks := c.files.map (callMapU c.cfg c.rd c.uargs c.kwargs (mkFunc c.fb))
   let (s, evs) := drive c.workers tasks c.perm
   -- the schedule produced by the driver must itself be valid and maximal
   let ok := match run c.workers tasks {} evs with
@@ -172,7 +189,7 @@ def doImap (c : Case) : String :=
     spaced (s.log.map toString), toString (countWarn s.done), writesOf s.out]
 
 def doMap (c : Case) : String :=
-  let tasks := taskList c.cfg c.rd (mkFunc c.fb) c.files
+  let tasks := c.files.map (callMapU c.cfg c.rd c.uargs c.kwargs (mkFunc c.fb))
   let (s, evs) := mdrive c.workers tasks c.perm
   let mr := match maxRunning c.workers tasks evs with | some m => toString m | none => "invalid"
   match mresult tasks.length s with
@@ -183,7 +200,7 @@ def doMap (c : Case) : String :=
       spaced (s.log.map toString), toString (countWarn s.done), writesOf items]
 
 def doCollect (c : Case) : String :=
-  let tasks := taskList c.cfg c.rd (mkFunc c.fb) c.files
+  let tasks := c.files.map (callMapU c.cfg c.rd c.uargs c.kwargs (mkFunc c.fb))
   let (s, _) := mdrive c.workers tasks c.perm
   match mresult tasks.length s with
   | none => "blocked"
